@@ -324,4 +324,23 @@ theorem body_alarms_sorted_setters (s : State) (h : Bodies.Sorted s) (b : Bool) 
     Bodies.Sorted (snoozeUntil (acknowledgeUntil (setLocalTimezone s b) o) o') :=
   ⟨h.abs, h.start, h.end_⟩
 
+/-- the regenerated `Alarms.add_alarm` is the model's `addAlarm` (which list an alarm goes to) -/
+theorem body_alarms_add_alarm (s : State) (a : VAlarm) :
+    Bodies.addAlarmP a s.absoluteAlarms s.startAlarms s.endAlarms =
+      ((addAlarm s a).absoluteAlarms, (addAlarm s a).startAlarms, (addAlarm s a).endAlarms) :=
+  Bodies.add_alarm_eq s a
+
+/-- the regenerated `Alarms.add_component` (with `set_parent`, `set_start`, `set_end`, `acknowledge_until`, `snooze_until`,
+    `add_alarm`: functions from the attributes before to the attributes after) is the model's `addComponent` -/
+theorem body_alarms_add_component (s : State) (par : Option Bodies.CompView) (c : Bodies.CompView) :
+    Bodies.alarmsAddComponentP c (Bodies.fieldsOf s par) =
+      .ok (Bodies.fieldsOf (addComponent s c.parent c.start c.end_ c.alarms) (some c)) :=
+  Bodies.add_component_eq s par c
+
+/-- the chain as translated, `Alarms(component).times`: `add_component` on the empty object, then `times`, is the model's -/
+theorem body_alarms_component_times (loc : Int → Int) (c : Bodies.CompView) :
+    (Bodies.alarmsAddComponentP c (Bodies.fieldsOf {} none) >>= Bodies.timesF loc false) =
+      Bodies.liftA ((times loc (ofComponent c.parent c.start c.end_ c.alarms)).map (List.map Bodies.toATup)) :=
+  Bodies.add_component_times loc {} none c Bodies.sorted_empty
+
 end ICal.C14
